@@ -15,12 +15,59 @@ separately by the fork-based variant in c12).
 """
 from __future__ import annotations
 
+import datetime as _dt
+import random
 import threading
 import traceback
 
+# ---------------------------------------------------------------------------------------------
+# Determinism of the implementation's own inputs: clock and randomness are functions of
+# (scenario seed, process, operation index) only, in the interleaved run and in every sequential
+# reference run alike.  `CUR` is thread-local: which (process, op) the calling thread executes.
+# ---------------------------------------------------------------------------------------------
+CUR = threading.local()
+BASE = _dt.datetime(2030, 1, 1, 12, 0, 0)
+
+
+def set_current(seed, nprocs, proc, opidx):
+    CUR.key = (seed, proc, opidx)
+    CUR.t = BASE + _dt.timedelta(seconds=opidx * nprocs + proc + 1)
+    CUR.calls = 0
+    CUR.rng = random.Random(f"{seed}/{proc}/{opidx}")
+
+
+class FakeDateTime(_dt.datetime):
+    @classmethod
+    def now(cls, tz=None):
+        CUR.calls += 1
+        return CUR.t + _dt.timedelta(microseconds=CUR.calls)
+
+
+class FakeSecrets:
+    @staticmethod
+    def randbelow(n):
+        return CUR.rng.randrange(n)
+
+    @staticmethod
+    def choice(seq):
+        return min(seq)
+
+
+def install_fakes():
+    from tupimage import id_manager as im
+    saved = (im.datetime, im.secrets)
+    im.datetime = FakeDateTime
+    im.secrets = FakeSecrets
+    return saved
+
+
+def uninstall_fakes(saved):
+    from tupimage import id_manager as im
+    im.datetime, im.secrets = saved
+
 
 class Proc(threading.Thread):
-    def __init__(self, idx, sched, dbfile, ops, max_ids, hook=None):
+    def __init__(self, idx, sched, dbfile, ops, max_ids, hook=None, seed=0, nprocs=1):
         super().__init__(daemon=True)
         self.idx = idx
         self.sched = sched
@@ -35,6 +82,8 @@ class Proc(threading.Thread):
         self.parked_at = None
         self.hook = hook
         self.m = None
+        self.seed = seed
+        self.nprocs = nprocs
 
     # -- called in this thread from sqlite's trace callback
     def _trace(self, sql):
@@ -52,11 +101,13 @@ class Proc(threading.Thread):
     def run(self):
         try:
             from tupimage import id_manager as im
+            set_current(self.seed, self.nprocs, self.idx, -1)
             self.park(("open",))
             self.m = im.IDManager(self.dbfile, max_ids_per_subspace=self.max_ids)
             self.m.conn.set_trace_callback(self._trace)
             for i, op in enumerate(self.ops):
                 self.cur_op = i
+                set_current(self.seed, self.nprocs, self.idx, i)
                 self.park(("op", i))
                 try:
                     r = self.sched.apply(self.m, op)
@@ -76,10 +127,10 @@ class Scheduler:
     """Runs `programs` (list of op lists) under `schedule` (iterable of process indices; when it
     runs out, or names a finished process, the lowest unfinished process moves)."""
 
-    def __init__(self, dbfile, programs, apply, max_ids=1024):
+    def __init__(self, dbfile, programs, apply, max_ids=1024, seed=0):
         self.parked = threading.Semaphore(0)
         self.apply = apply
-        self.procs = [Proc(i, self, dbfile, ops, max_ids) for i, ops in enumerate(programs)]
+        self.procs = [Proc(i, self, dbfile, ops, max_ids, seed=seed, nprocs=len(programs)) for i, ops in enumerate(programs)]
         self.trace = []   # (proc, where) in the order steps were granted
 
     def run(self, schedule, max_steps=100000):
